@@ -13,8 +13,18 @@ from .c07 import classify
 OPK_FREE = '{"blank", "comment", "split", "join", "eol", "case", "trail", "tcomment", "flush"}'
 
 
+_LAYCACHE = {}
+
+
 def layouts_for(n, maxops, opkinds, nsim=None, seed=0, fixed_only=False):
     """Layout.tla behaviours for a program of n statements (cfg written to scratch at run time)."""
+    key = (n, maxops, opkinds, nsim, seed)
+    if key not in _LAYCACHE:
+        _LAYCACHE[key] = _layouts_for(n, maxops, opkinds, nsim, seed)
+    return _LAYCACHE[key]
+
+
+def _layouts_for(n, maxops, opkinds, nsim=None, seed=0):
     cfgp = os.path.join(tlc.scratch(), "Layout_N%d_%d_%s.cfg" % (n, maxops, abs(hash(opkinds)) % 10 ** 6))
     with open(cfgp, "w") as fh:
         fh.write("CONSTANTS N = %d MaxOps = %d OpKinds = %s\nSPECIFICATION Spec\nINVARIANT Monotone\nINVARIANT MapIsLineMap\n" % (n, maxops, opkinds))
@@ -37,7 +47,21 @@ def dump(text, fname="p.f90", args="--max_line_length 120"):
                 diags = e["params"]["diagnostics"]
         syms = adapter.result_of(adapter.request(s, c, "textDocument/documentSymbol", {"textDocument": {"uri": adapter.uri(d, fname)}})) or []
         fo = s.workspace.get(os.path.join(d, fname))
-        return {"symbols": [(y["name"].lower(), y["kind"], (y.get("containerName") or "").lower(),
+        # what every entity IS (type, attributes, value, the procedure a binding or pointer is linked to): its hover
+        # text keyed by qualified name, letter case and blanks removed
+        hov = {}
+        if fo is not None and fo.ast is not None:
+            import re as _re
+            objs = list(fo.ast.variable_list) + list(fo.ast.scope_list)
+            for o in objs:
+                try:
+                    h = o.get_hover(long=True)
+                    txt = h[0] if isinstance(h, tuple) else h
+                except Exception as ex:  # noqa
+                    txt = "EXC:" + type(ex).__name__
+                if txt:
+                    hov.setdefault(o.FQSN.lower(), _re.sub(r"\s+", "", str(txt)).lower())
+        return {"hover": hov, "symbols": [(y["name"].lower(), y["kind"], (y.get("containerName") or "").lower(),
                              y["location"]["range"]["start"]["line"], y["location"]["range"]["end"]["line"]) for y in syms],
                 "diags": [(classify(x["message"]), x.get("severity"), x["range"]["start"]["line"]) for x in diags],
                 "fixed": bool(fo.fixed) if fo is not None else None}
@@ -131,6 +155,10 @@ def check(job):
                     {"expected": want_d, "observed": got_d}))
     if new["fixed"] != fixed:
         bad.append(({"form:misdetected", "expected:" + ("fixed" if fixed else "free")}, {"fixed_flag": new["fixed"]}))
+    elif not bad and base["hover"] != new["hover"]:
+        # same symbols and diagnostics, but an entity IS something else (type, attributes, value, link target)
+        keys = sorted(k for k in set(base["hover"]) | set(new["hover"]) if base["hover"].get(k) != new["hover"].get(k))
+        bad.append(({"diff:entities"}, {"differing": keys[:10], "sample": {k: {"before": base["hover"].get(k), "after": new["hover"].get(k)} for k in keys[:3]}}))
     if fixed:
         # the same twin reached by editing: a free-form buffer replaced by the fixed-form text (and back)
         sw = dump_after_switch("\n".join(stmts) + "\n", text)
@@ -245,18 +273,47 @@ def sample_source_job(job):
         lines = lines[:-1]
     n = len(lines)
     before = [[] for _ in range(n)]
+    joined = [False] * n
+    tcom = set()
     for op in lay["ops"]:
         if op["k"] in ("blank", "comment"):
             before[op["at"] - 1].append("" if op["k"] == "blank" else "! layout comment")
+        elif op["k"] == "join":
+            joined[op["at"] - 1] = True
+        elif op["k"] == "tcomment":
+            tcom.add(op["at"] - 1)
     fixed_src = rel.lower().endswith((".f", ".for", ".f77"))
+
+    def simple(i):
+        """physical line i is one complete statement that may be joined with `;` / take a trailing comment"""
+        if not (0 <= i < n):
+            return False
+        l = lines[i]
+        t = l.strip()
+        return bool(t) and not t.startswith(("!", "#", "&")) and "!" not in l and "&" not in l and ";" not in l and not t[0].isdigit() \
+            and not t.lower().startswith("include") and not (i > 0 and lines[i - 1].rstrip().endswith("&"))
+    if (any(joined) or tcom) and fixed_src:
+        return "skip"
+    for i in range(n):
+        if joined[i] and (i == 0 or before[i] or not simple(i) or not simple(i - 1) or joined[i - 1] or (i - 1) in tcom):
+            return "skip"
+        if i in tcom and not simple(i):
+            return "skip"
     phys = []
     for i, l in enumerate(lines):
         for b in before[i]:
             phys.append(("C layout comment" if fixed_src and b else b))
-        phys.append(l)
+        if i in tcom:
+            l = l.rstrip() + "  ! layout comment"
+        if joined[i]:
+            phys[-1] = phys[-1].rstrip() + "; " + l.strip()
+        else:
+            phys.append(l)
     out = []
+    # macro names are case-sensitive: a source with preprocessor directives keeps its letter case
+    has_pp = any(l.lstrip().startswith("#") for l in lines)
     for l in phys:
-        if l.startswith("#") or lay["case"] == "asis":
+        if l.startswith("#") or lay["case"] == "asis" or has_pp:
             out.append(l)
         else:
             # comments keep their text (doc comments are content); only code outside strings changes case
@@ -296,7 +353,11 @@ def sample_source_job(job):
     if want_d != sorted(new["diags"]):
         bad.append(({"diff:diagnostics", "source:sample"}, {"expected": want_d[:20], "observed": sorted(new["diags"])[:20]}))
     if base["fixed"] != new["fixed"]:
-        bad.append(({"form:changed", "source:sample"}, {"before": base["fixed"], "after": new["fixed"]}))
+        und = {"form:freeUndetectable"} if (not fixed_src and new["fixed"] and free_undetectable(out)) else set()
+        bad.append(({"form:changed", "source:sample"} | und, {"before": base["fixed"], "after": new["fixed"]}))
+    elif base["hover"] != new["hover"]:
+        keys = sorted(k for k in set(base["hover"]) | set(new["hover"]) if base["hover"].get(k) != new["hover"].get(k))
+        bad.append(({"diff:entities", "source:sample"}, {"differing": keys[:10], "sample": {k: {"before": base["hover"].get(k), "after": new["hover"].get(k)} for k in keys[:3]}}))
     tags = {"op:" + o["k"] for o in lay["ops"]}
     return [(t | tags, dict(x, file=rel, ops=lay["ops"])) for t, x in bad]
 
@@ -317,15 +378,31 @@ def sample_sources_part(ck, tier, rnd):
                 if 3 <= t.count("\n") <= 80:
                     files.append((os.path.relpath(p, src), t))
     rnd.shuffle(files)
-    files = files[: (10 if tier == "quick" else len(files))]
+    files = files[: (30 if tier == "quick" else len(files))]
     jobs = []
+    # the Layout.tla simulations (one per distinct line count and operation set) run side by side
+    from concurrent.futures import ThreadPoolExecutor
+    ns = sorted({len(t.split("\n")) - (1 if t.endswith("\n") else 0) for _r, t in files})
+    with ThreadPoolExecutor(max_workers=8) as ex:
+        list(ex.map(lambda n: layouts_for(n, 3, '{"blank", "comment", "eol", "case", "trail"}', nsim=16 if tier == "quick" else 60, seed=ck.seed), ns))
+        list(ex.map(lambda n: layouts_for(n, 2, '{"join", "tcomment", "case"}', nsim=60 if tier == "quick" else 400, seed=ck.seed + 1), ns))
     for rel, t in files:
         n = len(t.split("\n")) - (1 if t.endswith("\n") else 0)
-        lays, _ = layouts_for(n, 3, '{"blank", "comment", "eol", "case", "trail"}', nsim=16 if tier == "quick" else 60, seed=ck.seed + n)
-        for lay in lays[: (4 if tier == "quick" else 20)]:
+        lays, _ = layouts_for(n, 3, '{"blank", "comment", "eol", "case", "trail"}', nsim=16 if tier == "quick" else 60, seed=ck.seed)
+        for lay in lays[: (3 if tier == "quick" else 20)]:
             if lay["ops"]:
                 jobs.append((rel, t, lay))
+        # statement-level operations applied line-wise where a physical line is one complete statement:
+        # `;` joins and trailing comments (layouts that hit other lines are skipped)
+        lays, _ = layouts_for(n, 2, '{"join", "tcomment", "case"}', nsim=60 if tier == "quick" else 400, seed=ck.seed + 1)
+        for lay in lays:
+            if any(o["k"] in ("join", "tcomment") for o in lay["ops"]):
+                jobs.append((rel, t, lay))
+    nskip = 0
     for i, status, val in par.pmap(sample_source_job, jobs, item_timeout=180):
+        if status == "done" and val == "skip":
+            nskip += 1
+            continue
         ck.count(key=("sample", jobs[i][0], json.dumps(jobs[i][2]["ops"], sort_keys=True)))
         if status != "done":
             ck.violation({"replay:" + status, "source:sample"}, {"kind": "sample", "file": jobs[i][0], "detail": val})
@@ -334,7 +411,8 @@ def sample_sources_part(ck, tier, rnd):
         for tags, detail in val:
             detail["kind"] = "sample"
             ck.violation(tags, detail)
-    ck.note("sample_source_layouts", len(jobs))
+    ck.note("sample_source_layouts", len(jobs) - nskip)
+    ck.note("sample_source_layouts_skipped_not_applicable", nskip)
 
 
 def main(tier, seed):
